@@ -31,7 +31,13 @@ def _run_stage(g, stage, payload):
     signal.setitimer(signal.ITIMER_REAL, WATCHDOG_S + len(g) // 2)
     try:
         try:
-            M.apply_stage(scfg, stage)
+            if len(g) >= 80:
+                from vpbt.core import default_recursion_limit
+
+                with default_recursion_limit():
+                    M.apply_stage(scfg, stage)
+            else:
+                M.apply_stage(scfg, stage)
             return None
         finally:
             signal.setitimer(signal.ITIMER_REAL, 0)
@@ -122,8 +128,45 @@ def _big_returns(n):
     return {k: tuple(t for t in v if t < n) for k, v in sorted(g.items())}
 
 
-BIG = [(f, n) for n in (255, 256, 257, 258, 300) for f in (_big_chain, _big_loop)] + [(_big_ladder, 257), (_big_returns, 257), (_big_returns, 300)]
-BIG_THOROUGH = BIG + [(_big_chain, 520), (_big_loop, 520), (_big_chain, 1030), (_big_loop, 1030), (_big_ladder, 300), (_big_returns, 520)]
+def _big_comb(n):
+    """if nested in if nested in if ...: n // 2 levels deep"""
+    d = max(2, n // 2)
+    names = {}
+    g = {}
+
+    def nid(k):
+        return names.setdefault(k, len(names))
+
+    for i in range(d):
+        g[nid(("c", i))] = None
+    for i in range(d):
+        g[nid(("c", i))] = (nid(("c", i + 1)), nid(("j", i)))
+    g[nid(("c", d))] = (nid(("j", d - 1)),)
+    for i in range(d - 1, 0, -1):
+        g[nid(("j", i))] = (nid(("j", i - 1)),)
+    g[nid(("j", 0))] = ()
+    return dict(sorted(g.items()))
+
+
+def _big_nest(n):
+    """loop nested in loop nested in loop ...: n // 2 levels deep"""
+    d = max(2, n // 2)
+    names = {}
+
+    def nid(k):
+        return names.setdefault(k, len(names))
+
+    g = {nid("e"): (nid(("h", 0)),)}
+    for i in range(d):
+        g[nid(("h", i))] = (nid(("h", i + 1)),) if i + 1 < d else (nid(("l", i)),)
+    for i in range(d - 1, -1, -1):
+        g[nid(("l", i))] = (nid(("h", i)), nid(("l", i - 1))) if i > 0 else (nid(("h", 0)), nid("x"))
+    g[nid("x")] = ()
+    return dict(sorted(g.items()))
+
+
+BIG = [(f, n) for n in (255, 256, 257, 258, 300) for f in (_big_chain, _big_loop)] + [(_big_ladder, 257), (_big_returns, 257), (_big_returns, 300), (_big_comb, 120), (_big_nest, 80)]
+BIG_THOROUGH = BIG + [(_big_comb, 300), (_big_nest, 200), (_big_chain, 520), (_big_loop, 520), (_big_chain, 1030), (_big_loop, 1030), (_big_ladder, 300), (_big_returns, 520)]
 
 
 def _run_big(spec):
